@@ -223,8 +223,10 @@ def run(tier, seed):
     common.build_helpers()
     cicada = common.build_cicada("debug")
     nochecks = common.build_cicada("nochecks")
-    harness = common.build_harness()
+    harness, why_not = common.try_build_harness()
     rep = Report("C05", tier, seed)
+    if harness is None:
+        rep.inconc("harness: the in-process harness did not build, layer 1 not run (%s)" % why_not)
     thorough = tier == "thorough"
     rep.rule = ("layer 1: all strings of length<=%d over {' \" ` \\ $ ( ) { } | & > blank a} and all sequences of <=%d fragments of "
                 "{; < * ~ # , .. 1 + ^ = e-acute $X 2>&1} and of {| ( ) ' \" \\ $ blank e-acute CJK a > & ;} through line_to_cmds, parse_line, tokens_to_line, tokens_to_redirections, "
@@ -242,11 +244,11 @@ def run(tier, seed):
     t0 = time.time()
     jobs = []
     la, lb = (6, 5) if thorough else (5, 4)
-    for i in range(n):
+    for i in range(n if harness else 0):
         jobs.append(common.FileProc([harness, "c05", "A", str(la), str(i), str(n), os.path.join(scratch, "a%d" % i)]))
-    for i in range(n):
+    for i in range(n if harness else 0):
         jobs.append(common.FileProc([harness, "c05", "B", str(lb), str(i), str(n), os.path.join(scratch, "b%d" % i)]))
-    for i in range(n):
+    for i in range(n if harness else 0):
         jobs.append(common.FileProc([harness, "c05", "C", str(lb), str(i), str(n), os.path.join(scratch, "c%d" % i)]))
     l1_strings = 0
     for p in jobs:
